@@ -2,7 +2,7 @@
 implementation-level oracle used to search for a concrete failing input."""
 import re
 
-from . import gen_kzg, gen_pc, gen_c16, gen_c13, gen_c08
+from . import gen_kzg, gen_pc, gen_c16, gen_c13, gen_c08, gen_c09
 from .gen_common import R_BLS381
 from .oracles import pc_honest, pc_mutations, pc_refusals, pc_hiding, pc_domain
 
@@ -202,6 +202,37 @@ def oracle_c08(case, lo):
     return fails
 
 
+def oracle_c09(case, lo):
+    fails = []
+    if case.kind != "c09":
+        return fails
+    sub = case.fields["sub"][0]
+    if sub == "kzg_setup":
+        if int(case.fields["D"][0]) >= 1:
+            if lib_s(lo, "setup") != "ok":
+                fails.append("KZG10::setup refused max_degree %s" % case.fields["D"][0])
+            if lib_s(lo, "generators_ok") == "no":
+                fails.append("KZG10::setup published an identity or coinciding generator")
+            if lib_s(lo, "deterministic") == "no":
+                fails.append("KZG10::setup is not a function of the RNG stream")
+        elif lib_s(lo, "setup") == "ok":
+            fails.append("KZG10::setup served max_degree 0")
+    elif sub == "sonic_trim":
+        for k, v in lo.items():
+            if k.startswith("sub.") and v[1][0] != "faithful":
+                fails.append("SonicKZG10::trim: %s of the trimmed keys is not the corresponding part of the parameters (bounds %s)"
+                             % (k[4:], " ".join(case.fields["bounds"])))
+    elif sub == "transparent":
+        sch = case.fields["scheme"][0]
+        if lib_s(lo, "count") != lib_s(lo, "expected_count"):
+            fails.append("%s setup published %s generators, expected %s" % (sch, lib_s(lo, "count"), lib_s(lo, "expected_count")))
+        for k, what in (("distinct", "coinciding generators"), ("non_identity", "an identity / invalid generator"),
+                        ("rng_independent", "generators that depend on the caller's RNG"), ("trim_faithful", "trimmed keys that are not sub-keys")):
+            if lib_s(lo, k) == "no":
+                fails.append("%s setup/trim: %s" % (sch, what))
+    return fails
+
+
 def lib_toks(lo, name):
     v = lo.get(name)
     return v[1] if v else None
@@ -320,5 +351,11 @@ PROPS = {
         "oracles": [oracle_c17_kzg, oracle_c01_kzg, pc_honest, pc_refusals, pc_domain, lambda c, lo: pc_mutations(c, lo, ("drop_eval", "drop_comm"))],
         "accept_diffs": ("mut.",),
         "title": "Out-of-domain requests are refused",
+    },
+    "C09": {
+        "props_file": "props/C09.v",
+        "flows": [(gen_c09.gen, "c09", 90, 900), (gen_pc.gen, "c17domain", 30, 300)],
+        "oracles": [oracle_c09, pc_honest, pc_domain],
+        "title": "Setup and trim",
     },
 }
